@@ -7,18 +7,23 @@ import FocaModel.Proofs.InvE
 import FocaModel.Proofs.Units
 namespace Foca
 
+/-- indirect-probe timers among the effects -/
+def isIndirectT : Effect → Bool
+  | .timer _ (.indirect _ _) => true
+  | _ => false
+
 /-- `handle_apply_summary` from its one state-changing leaf -/
 theorem handleApplySummary_presE {E : Env} {P : State → List Effect → Prop} {u : Member} (hadd : PresE P (addUpdate E u))
-    (hemit : ∀ e, isSend e = false → PresE P (emit e))
+    (hemit : ∀ e, isSend e = false → isS2d e = false → isIndirectT e = false → PresE P (emit e))
     (sm : Summary) (b : Bool) : PresE P (handleApplySummary E sm u b) := by
   unfold Foca.handleApplySummary
   prese
-  all_goals first | exact hadd | exact hemit _ rfl
+  all_goals first | exact hadd | exact hemit _ rfl rfl rfl
 
 /-- the unit `apply_existing_if` + report from its leaves -/
 theorem applyExistingReport_presE {E : Env} {P : State → List Effect → Prop} {u : Member} {cond : Member → Bool}
     (h1 : PresE P (membersApplyExistingIf u cond)) (hadd : PresE P (addUpdate E u))
-    (hemit : ∀ e, isSend e = false → PresE P (emit e)) :
+    (hemit : ∀ e, isSend e = false → isS2d e = false → isIndirectT e = false → PresE P (emit e)) :
     PresE P (applyExistingReport E u cond) := by
   unfold Foca.applyExistingReport
   refine PresE.bind h1 (fun r => ?_)
@@ -26,19 +31,29 @@ theorem applyExistingReport_presE {E : Env} {P : State → List Effect → Prop}
   · exact PresE.bind (handleApplySummary_presE hadd hemit _ _) (fun _ => PresE.pure _)
   · exact PresE.pure _
 
-/-- leaf obligations, identity/incarnation writers excluded. `okU u`: the update `u` may be stored (a pure
-    side condition; `fun _ => True` for invariants that accept every update). -/
-structure BaseE (E : Env) (P : State → List Effect → Prop) (okU : Member → Prop) : Prop where
+/-- leaf obligations, identity/incarnation writers excluded. `okU u`: the update `u` may be stored; `okD d`: a
+    datagram may be addressed to `d`; `okM m`: the message `m` may be sent (pure side conditions; `fun _ => True`
+    for invariants that do not care). -/
+structure BaseE (E : Env) (P : State → List Effect → Prop) (okU : Member → Prop) (okD : Id → Prop) (okM : Msg → Prop) :
+    Prop where
   /-- the Down-at-incarnation-0 update the instance makes up about its own (previous) identity -/
   ownDown : ∀ s eff, P s eff → okU ⟨s.id, 0, .down⟩
-  /-- anything emitted that is not a datagram -/
-  emitNS : ∀ e, isSend e = false → PresE P (emit e)
+  /-- anything emitted that is neither a datagram nor a suspicion or indirect-probe timer -/
+  emitNS : ∀ e, isSend e = false → isS2d e = false → isIndirectT e = false → PresE P (emit e)
+  /-- the indirect-probe timer of a round names the member being probed -/
+  emitIndirect : ∀ p after tok, okD p → PresE P (emit (.timer after (.indirect p tok)))
+  /-- every listed member may be a destination; so may the subject of any storable update -/
+  memberDst : ∀ s eff m, P s eff → m ∈ s.ms → okD m.id
+  updDst : ∀ u, okU u → okD u.id
+  plainMsg : okM .gossip ∧ okM .announce ∧ okM .broadcast ∧ okM .feed ∧ okM .turnUndead
+  pingMsg : ∀ s eff, P s eff → okM (.ping s.probe.number)
+  pingReqMsg : ∀ s eff p, P s eff → okD p → okM (.pingReq p s.probe.number)
   membersApply : ∀ u, okU u → PresE P (membersApply u)
   membersApplyExistingIf : ∀ u cond, okU u → PresE P (membersApplyExistingIf u cond)
   /-- the member `next` returns may become the probe target -/
   membersNext : PresER P (fun r => ∀ m, r = some m → okU ⟨m.id, m.inc, .suspect⟩) membersNext
   startProbe : ∀ m, okU ⟨m.id, m.inc, .suspect⟩ → PresE P (modS fun s => { s with probe := s.probe.start m })
-  sendMessage : ∀ d m, PresE P (sendMessage E d m)
+  sendMessage : ∀ d m, okD d → okM m → PresE P (sendMessage E d m)
   addUpdate : ∀ m, okU m → PresE P (addUpdate E m)
   modCtl : ∀ f, CtlKeep f → PresE P (modS f)
   /-- handler state only -/
@@ -48,14 +63,15 @@ structure BaseE (E : Env) (P : State → List Effect → Prop) (okU : Member →
     { s with hst := h', custom := addOrReplace s.custom E.handler.invalidates key data s.cfg.maxTx })
 
 section
-variable {E : Env} {P : State → List Effect → Prop} {okU : Member → Prop} (B : BaseE E P okU)
+variable {E : Env} {P : State → List Effect → Prop} {okU : Member → Prop} {okD : Id → Prop} {okM : Msg → Prop}
+  (B : BaseE E P okU okD okM)
 include B
 
 theorem BaseE.ctl (f : State → State)
     (h : ∀ s, (f s).ms = s.ms ∧ (f s).numActive = s.numActive ∧ (f s).updates = s.updates ∧
       (f s).custom = s.custom ∧ (f s).cursor = s.cursor ∧ (f s).id = s.id ∧ (f s).inc = s.inc ∧
-      (f s).policy = s.policy ∧ ProbeKeep s.probe (f s).probe := by
-        intro s; exact ⟨rfl, rfl, rfl, rfl, rfl, rfl, rfl, rfl, by first | exact Or.inl rfl | exact Or.inr rfl⟩) :
+      (f s).policy = s.policy ∧ ProbeKeep s.probe (f s).probe ∧ (f s).probe.number = s.probe.number := by
+        intro s; exact ⟨rfl, rfl, rfl, rfl, rfl, rfl, rfl, rfl, by first | exact Or.inl rfl | exact Or.inr rfl, rfl⟩) :
     PresE P (modS f) := B.modCtl f h
 
 theorem BaseE.chooseLoop (w : Nat) (pick : Member → Bool) (l out : List Member) (seen : Nat) :
@@ -68,44 +84,51 @@ theorem BaseE.chooseLoop (w : Nat) (pick : Member → Bool) (l out : List Member
   | err e c' => rw [h] at this; exact this.elim
   | ok a c' => rw [h] at this; simp only; rw [this.1, this.2.1]; exact hc
 
-theorem BaseE.sendAll (msg : Msg) (ds : List Id) : PresE P (Foca.sendAll E msg ds) := by
+theorem BaseE.sendAll (msg : Msg) (ds : List Id) (hm : okM msg) (hds : ∀ d ∈ ds, okD d) :
+    PresE P (Foca.sendAll E msg ds) := by
   induction ds with
   | nil => unfold Foca.sendAll; exact PresE.pure _
   | cons d rest ih =>
     unfold Foca.sendAll
-    exact PresE.bind (B.sendMessage d msg) (fun _ => ih)
+    exact PresE.bind (B.sendMessage d msg (hds d (by simp)) hm) (fun _ => ih (fun x hx => hds x (by simp [hx])))
 
-theorem BaseE.chooseAndSend (n : Nat) (msg : Msg) : PresE P (Foca.chooseAndSend E n msg) := by
+theorem BaseE.chooseAndSend (n : Nat) (msg : Msg) (hm : okM msg) : PresE P (Foca.chooseAndSend E n msg) := by
   unfold Foca.chooseAndSend
-  prese
-  · exact B.chooseLoop _ _ _ _ _
-  · exact B.sendAll _ _
+  refine PresE.getS_with (fun s eff hs => ?_)
+  refine PresER.bind (PresER.chooseLoop _ _ _) (fun chosen hch => ?_)
+  refine B.sendAll _ _ hm (fun d hd => ?_)
+  simp only [List.mem_map, List.mem_reverse] at hd
+  obtain ⟨m, hmem, rfl⟩ := hd
+  exact B.memberDst s eff m hs (hch m hmem).1
 
 theorem BaseE.gossip : PresE P (Foca.gossip E) := by
   unfold Foca.gossip
   prese
-  exact B.chooseAndSend _ _
+  exact B.chooseAndSend _ _ B.plainMsg.1
 
 theorem BaseE.announceToDown (n : Nat) : PresE P (Foca.announceToDown E n) := by
   unfold Foca.announceToDown
-  prese
-  · exact B.chooseLoop _ _ _ _ _
-  · exact B.sendAll _ _
+  refine PresE.getS_with (fun s eff hs => ?_)
+  refine PresER.bind (PresER.chooseLoop _ _ _) (fun chosen hch => ?_)
+  refine B.sendAll _ _ B.plainMsg.2.1 (fun d hd => ?_)
+  simp only [List.mem_map, List.mem_reverse] at hd
+  obtain ⟨m, hmem, rfl⟩ := hd
+  exact B.memberDst s eff m hs (hch m hmem).1
 
 theorem BaseE.becomeUndead : PresE P Foca.becomeUndead := by
   unfold Foca.becomeUndead
   prese
-  all_goals first | exact B.ctl _ | exact B.emitNS _ rfl
+  all_goals first | exact B.ctl _ | exact B.emitNS _ rfl rfl rfl
 
 theorem BaseE.becomeDisconnected : PresE P (Foca.becomeDisconnected E) := by
   unfold Foca.becomeDisconnected
   prese
-  all_goals first | exact B.ctl _ | exact B.emitNS _ rfl
+  all_goals first | exact B.ctl _ | exact B.emitNS _ rfl rfl rfl
 
 theorem BaseE.becomeConnected : PresE P (Foca.becomeConnected E) := by
   unfold Foca.becomeConnected
   prese
-  all_goals first | exact B.ctl _ | exact B.emitNS _ rfl
+  all_goals first | exact B.ctl _ | exact B.emitNS _ rfl rfl rfl
 
 theorem BaseE.adjustConnectionState : PresE P (Foca.adjustConnectionState E) := by
   unfold Foca.adjustConnectionState
@@ -127,20 +150,25 @@ theorem BaseE.applyExistingReport (u : Member) (cond : Member → Bool) (hu : ok
     PresE P (Foca.applyExistingReport E u cond) :=
   applyExistingReport_presE (B.membersApplyExistingIf u cond hu) (B.addUpdate u hu) B.emitNS
 
-theorem BaseE.broadcastLoop (ds : List Id) : PresE P (Foca.broadcastLoop E ds) := by
+theorem BaseE.broadcastLoop (ds : List Id) (hds : ∀ d ∈ ds, okD d) : PresE P (Foca.broadcastLoop E ds) := by
   induction ds with
   | nil => unfold Foca.broadcastLoop; exact PresE.pure _
   | cons d rest ih =>
     unfold Foca.broadcastLoop
     prese
-    · exact B.sendMessage _ _
-    · exact ih
+    · exact B.sendMessage _ _ (hds d (by simp)) B.plainMsg.2.2.1
+    · exact ih (fun x hx => hds x (by simp [hx]))
 
 theorem BaseE.broadcastApi : PresE P (Foca.broadcastApi E) := by
   unfold Foca.broadcastApi
-  prese
-  · exact B.chooseLoop _ _ _ _ _
-  · exact B.broadcastLoop _
+  refine PresE.getS_with (fun s eff hs => ?_)
+  split
+  · exact PresE.pure _
+  · refine PresER.bind (PresER.chooseLoop _ _ _) (fun chosen hch => ?_)
+    refine B.broadcastLoop _ (fun d hd => ?_)
+    simp only [List.mem_map, List.mem_reverse] at hd
+    obtain ⟨m, hmem, rfl⟩ := hd
+    exact B.memberDst s eff m hs (hch m hmem).1
 
 theorem BaseE.leaveCluster : PresE P (Foca.leaveCluster E) := by
   unfold Foca.leaveCluster
@@ -168,15 +196,17 @@ theorem BaseE.setConfig (cfg : Config) : PresE P (Foca.setConfig cfg) := by
   prese
   exact B.ctl _
 
-theorem BaseE.pingReqLoop (probed : Id) (ds : List Id) : PresE P (Foca.pingReqLoop E probed ds) := by
+theorem BaseE.pingReqLoop (probed : Id) (ds : List Id) (hp : okD probed) (hds : ∀ d ∈ ds, okD d) :
+    PresE P (Foca.pingReqLoop E probed ds) := by
   induction ds with
   | nil => unfold Foca.pingReqLoop; exact PresE.pure _
   | cons d rest ih =>
     unfold Foca.pingReqLoop
-    prese
-    · exact B.ctl _
-    · exact B.sendMessage _ _
-    · exact ih
+    refine PresE.getS_with (fun s eff hs => ?_)
+    refine PresE.ite (PresE.panicAt _) ?_
+    refine PresE.bind (B.ctl _) (fun _ => ?_)
+    exact PresE.bind (B.sendMessage _ _ (hds d (by simp)) (B.pingReqMsg s eff probed hs hp))
+      (fun _ => ih (fun x hx => hds x (by simp [hx])))
 
 theorem BaseE.customLoop (sender : Option Id) (fuel : Nat) (data : Bytes) : PresE P (Foca.customLoop E sender fuel data) := by
   induction fuel generalizing data with
@@ -211,7 +241,8 @@ theorem BaseE.handleCustomBroadcasts (data : Bytes) (sender : Option Id) :
 end
 
 section
-variable {E : Env} {P : State → List Effect → Prop} {okU : Member → Prop} (B : BaseE E P okU)
+variable {E : Env} {P : State → List Effect → Prop} {okU : Member → Prop} {okD : Id → Prop} {okM : Msg → Prop}
+  (B : BaseE E P okU okD okM)
   (modId : ∀ f, IdCtl f → PresE P (modS f))
 include B modId
 
@@ -219,14 +250,14 @@ include B modId
 
 theorem BaseE.reset_of : PresE P Foca.reset := by
   unfold Foca.reset
-  exact modId _ (fun s => ⟨rfl, rfl, rfl, rfl, rfl, Or.inr rfl⟩)
+  exact modId _ (fun s => ⟨rfl, rfl, rfl, rfl, rfl, Or.inr rfl, rfl⟩)
 
 theorem BaseE.changeIdentity_of (i : Id) (p : Policy) : PresE P (Foca.changeIdentity E i p) := by
   unfold Foca.changeIdentity
   refine PresE.getS_with (fun s eff hs => ?_)
   prese
   all_goals first
-    | exact modId _ (fun s => ⟨rfl, rfl, rfl, rfl, rfl, Or.inl rfl⟩)
+    | exact modId _ (fun s => ⟨rfl, rfl, rfl, rfl, rfl, Or.inl rfl, rfl⟩)
     | exact B.reset_of modId
     | exact B.addUpdate _ (B.ownDown s eff hs)
     | exact B.gossip
@@ -234,7 +265,7 @@ theorem BaseE.changeIdentity_of (i : Id) (p : Policy) : PresE P (Foca.changeIden
 theorem BaseE.attemptRejoin_of : PresE P (Foca.attemptRejoin E) := by
   unfold Foca.attemptRejoin
   prese
-  all_goals first | exact B.changeIdentity_of modId _ _ | exact B.emitNS _ rfl
+  all_goals first | exact B.changeIdentity_of modId _ _ | exact B.emitNS _ rfl rfl rfl
 
 theorem BaseE.handleSelfUpdate_of (inc : Nat) (st : St) : PresE P (Foca.handleSelfUpdate E inc st) := by
   unfold Foca.handleSelfUpdate
@@ -243,7 +274,7 @@ theorem BaseE.handleSelfUpdate_of (inc : Nat) (st : St) : PresE P (Foca.handleSe
     | exact B.attemptRejoin_of modId
     | exact B.becomeUndead
     | exact B.gossip
-    | exact modId _ (fun s => ⟨rfl, rfl, rfl, rfl, rfl, Or.inl rfl⟩)
+    | exact modId _ (fun s => ⟨rfl, rfl, rfl, rfl, rfl, Or.inl rfl, rfl⟩)
 
 theorem BaseE.reuseDownIdentity_of : PresE P Foca.reuseDownIdentity := by
   unfold Foca.reuseDownIdentity
@@ -255,9 +286,12 @@ end
 /-- `Base` plus `handle_self_update` and the three places where an update is built from the state that was
     read together with the call's input: the sender of a datagram, an update about another address, the failed
     probe target. `okIn` / `okH`: what is known about the members / the header of the call's input. -/
-structure FullE (E : Env) (P : State → List Effect → Prop) (okU okIn : Member → Prop) (okH : Header → Prop) : Prop
-    extends BaseE E P okU where
+structure FullE (E : Env) (P : State → List Effect → Prop) (okU okIn : Member → Prop) (okH : Header → Prop)
+    (okD : Id → Prop) (okM : Msg → Prop) : Prop
+    extends BaseE E P okU okD okM where
   handleSelfUpdate : ∀ inc st, PresE P (handleSelfUpdate E inc st)
+  /-- the suspicion timer of a failed probe round names the member that may be stored as Suspect -/
+  emitS2d : ∀ m inc after tok, okU ⟨m, inc, .suspect⟩ → PresE P (emit (.timer after (.s2d m inc tok)))
   /-- another identity of the own address named by the input is stored as Down at incarnation 0 -/
   inputDown : ∀ u, okIn u → okU ⟨u.id, 0, .down⟩
   senderOk : ∀ (s0 : State) (eff0 : List Effect) (h : Header), okH h → P s0 eff0 → (h.src == s0.id || h.src.addr == s0.id.addr) = false →
@@ -265,22 +299,28 @@ structure FullE (E : Env) (P : State → List Effect → Prop) (okU okIn : Membe
   applyOk : ∀ (s0 : State) (eff0 : List Effect) (u : Member), okIn u → P s0 eff0 → (u.id == s0.id) = false →
     (s0.id.addr == u.id.addr) = false → okU u
   failedOk : ∀ (s0 : State) (eff0 : List Effect) (m : Member), P s0 eff0 → s0.probe.takeFailed.1 = some m → okU ⟨m.id, m.inc, .suspect⟩
+  /-- what the reply table sends in answer to an acceptable header -/
+  replyOk : ∀ h, okH h → okD h.src ∧ (∀ n, h.msg = .ping n → okM (.ack n)) ∧
+    (∀ t n, h.msg = .pingReq t n → okD t ∧ okM (.indirectPing h.src n)) ∧
+    (∀ o n, h.msg = .indirectPing o n → okM (.indirectAck o n)) ∧
+    (∀ t n, h.msg = .indirectAck t n → okD t ∧ okM (.forwardedAck h.src n))
 
 section
-variable {E : Env} {P : State → List Effect → Prop} {okU okIn : Member → Prop} {okH : Header → Prop} (F : FullE E P okU okIn okH)
+variable {E : Env} {P : State → List Effect → Prop} {okU okIn : Member → Prop} {okH : Header → Prop}
+  {okD : Id → Prop} {okM : Msg → Prop} (F : FullE E P okU okIn okH okD okM)
 include F
 
 theorem FullE.probeSuspectFailed : PresE P (Foca.probeSuspectFailed E) := by
   unfold Foca.probeSuspectFailed
   refine PresE.getS_modS_bind (g := fun s s' => { s' with probe := s.probe.takeFailed.2 }) (fun s eff hs => ?_) (fun s eff hs => ?_)
   · exact PresE.modS_at (F.toBaseE.ctl (fun s => { s with probe := s.probe.takeFailed.2 })
-      (fun s => ⟨rfl, rfl, rfl, rfl, rfl, rfl, rfl, rfl, ProbeKeep.takeFailed _⟩)) s eff hs
+      (fun s => ⟨rfl, rfl, rfl, rfl, rfl, rfl, rfl, rfl, ProbeKeep.takeFailed _, Probe.takeFailed_number _⟩)) s eff hs
   · split
     · rename_i failed hf
       refine PresE.bind (F.toBaseE.applyExistingReport _ _ (F.failedOk s eff failed hs hf)) (fun r => ?_)
       split
       · split
-        · exact PresE.bind PresE.getS (fun _ => F.emitNS _ rfl)
+        · exact PresE.bind PresE.getS (fun _ => F.emitS2d _ _ _ _ (F.failedOk s eff failed hs hf))
         · exact PresE.pure _
       · exact PresE.pure _
     · exact PresE.pure _
@@ -290,8 +330,10 @@ theorem FullE.probeStartNext : PresE P (Foca.probeStartNext E) := by
   refine PresER.bind F.membersNext (fun r hr => ?_)
   split
   · rename_i member
+    have hd : okD member.id := F.updDst ⟨member.id, member.inc, .suspect⟩ (hr member rfl)
     refine PresE.bind (F.startProbe member (hr member rfl)) (fun _ => ?_)
-    exact PresE.bind PresE.getS (fun _ => PresE.bind (F.sendMessage _ _) (fun _ => F.emitNS _ rfl))
+    refine PresE.getS_with (fun s eff hs => ?_)
+    exact PresE.bind (F.sendMessage _ _ hd (F.pingMsg s eff hs)) (fun _ => F.emitIndirect _ _ _ hd)
   · exact PresE.pure _
 
 theorem FullE.probeRandomMember : PresE P (Foca.probeRandomMember E) := by
@@ -301,27 +343,61 @@ theorem FullE.probeRandomMember : PresE P (Foca.probeRandomMember E) := by
     | exact F.toBaseE.ctl _
     | exact F.probeSuspectFailed
     | exact F.probeStartNext
-    | exact F.emitNS _ rfl
+    | exact F.emitNS _ rfl rfl rfl
 
-/-- `handle_timer`; the one update built from the timer itself (the suspicion timeout) must be storable -/
+/-- `handle_timer`; the one update built from the timer itself (the suspicion timeout) must be storable, the
+    member an indirect-probe timer names must be an acceptable destination -/
 theorem FullE.handleTimer (t : Timer) (ht : ∀ m inc tok, t = .s2d m inc tok → okU ⟨m, inc, .down⟩)
+    (hind : ∀ p tok, t = .indirect p tok → okD p)
     (hrm : ∀ id, t = .rm id → PresE P (modS fun s => { s with ms := removeIfDown s.ms id })) :
     PresE P (Foca.handleTimer E t) := by
   unfold Foca.handleTimer
-  prese
-  all_goals first
-    | exact F.toBaseE.ctl _
-    | exact hrm _ rfl
-    | exact F.toBaseE.chooseLoop _ _ _ _ _
-    | exact F.toBaseE.pingReqLoop _ _
-    | exact F.toBaseE.applyExistingReport _ _ (ht _ _ _ rfl)
-    | exact F.toBaseE.handleApplySummary _ _ _
-    | exact F.toBaseE.adjustConnectionState
-    | exact F.sendMessage _ _
-    | exact F.probeRandomMember
-    | exact F.toBaseE.chooseAndSend _ _
-    | exact F.toBaseE.announceToDown _
-    | exact F.emitNS _ rfl
+  refine PresE.getS_with (fun s eff hs => ?_)
+  cases t with
+  | indirect probed tok =>
+    dsimp only
+    repeat' first
+      | exact PresE.pure _
+      | exact F.toBaseE.ctl _
+      | refine PresER.bind (PresER.chooseLoop _ _ _) (fun chosen hch => ?_)
+      | with_reducible apply PresE.bind
+      | with_reducible apply PresE.ite
+      | (intro _; try dsimp only)
+    · refine F.toBaseE.pingReqLoop _ _ (hind _ _ rfl) (fun d hd => ?_)
+      simp only [List.mem_map, List.mem_reverse] at hd
+      obtain ⟨m, hm, rfl⟩ := hd
+      exact F.memberDst s eff m hs (hch m hm).1
+  | s2d m inc tok =>
+    dsimp only
+    prese
+    all_goals first
+      | exact F.toBaseE.applyExistingReport _ _ (ht _ _ _ rfl)
+      | exact F.toBaseE.adjustConnectionState
+      | exact F.sendMessage _ _ (F.updDst _ (ht _ _ _ rfl)) F.plainMsg.2.2.2.2
+  | rm down => exact hrm _ rfl
+  | probe tok =>
+    dsimp only
+    prese
+    exact F.probeRandomMember
+  | pa tok =>
+    dsimp only
+    prese
+    all_goals first
+      | exact F.toBaseE.chooseAndSend _ _ F.plainMsg.2.1
+      | exact F.emitNS _ rfl rfl rfl
+  | pad tok =>
+    dsimp only
+    prese
+    all_goals first
+      | exact F.toBaseE.announceToDown _
+      | exact F.emitNS _ rfl rfl rfl
+  | pg tok =>
+    dsimp only
+    prese
+    all_goals first
+      | exact F.toBaseE.chooseAndSend _ _ F.plainMsg.1
+      | exact F.toBaseE.gossip
+      | exact F.emitNS _ rfl rfl rfl
 
 theorem FullE.applyOne (u : Member) (b : Bool) (hu : okIn u) : PresE P (Foca.applyOne E u b) := by
   unfold Foca.applyOne
@@ -347,27 +423,43 @@ theorem FullE.applyMany (us : List Member) (b : Bool) (hus : ∀ u ∈ us, okIn 
   · exact F.applyLoop _ _ hus
   · exact F.toBaseE.adjustConnectionState
 
-theorem FullE.reactToMessage (h : Header) : PresE P (Foca.reactToMessage E h) := by
+theorem FullE.reactToMessage (h : Header) (hh : okH h) : PresE P (Foca.reactToMessage E h) := by
+  obtain ⟨hsrc, hping, hreq, hiping, hiack⟩ := F.replyOk h hh
   unfold Foca.reactToMessage
-  prese
-  all_goals first
-    | exact F.toBaseE.ctl _
-    | exact F.toBaseE.ctl _ (fun s => ⟨rfl, rfl, rfl, rfl, rfl, rfl, rfl, rfl, ProbeKeep.receiveAck _ _ _⟩)
-    | exact F.toBaseE.ctl _ (fun s => ⟨rfl, rfl, rfl, rfl, rfl, rfl, rfl, rfl, ProbeKeep.receiveIndirectAck _ _ _⟩)
-    | exact F.sendMessage _ _
-    | exact F.handleSelfUpdate _ _
+  refine PresE.bind PresE.getS (fun s => ?_)
+  cases hm : h.msg with
+  | ping n => exact F.sendMessage _ _ hsrc (hping n hm)
+  | ack n => exact F.toBaseE.ctl _ (fun s => ⟨rfl, rfl, rfl, rfl, rfl, rfl, rfl, rfl, ProbeKeep.receiveAck _ _ _, Probe.receiveAck_number _ _ _⟩)
+  | pingReq t n =>
+    dsimp only
+    exact PresE.ite (PresE.throwE _) (F.sendMessage _ _ (hreq t n hm).1 (hreq t n hm).2)
+  | indirectPing o n =>
+    dsimp only
+    exact PresE.ite (PresE.throwE _) (F.sendMessage _ _ hsrc (hiping o n hm))
+  | indirectAck t n =>
+    dsimp only
+    exact PresE.ite (PresE.throwE _) (F.sendMessage _ _ (hiack t n hm).1 (hiack t n hm).2)
+  | forwardedAck o n =>
+    dsimp only
+    exact PresE.ite (PresE.throwE _) (F.toBaseE.ctl _ (fun s => ⟨rfl, rfl, rfl, rfl, rfl, rfl, rfl, rfl, ProbeKeep.receiveIndirectAck _ _ _, Probe.receiveIndirectAck_number _ _ _⟩))
+  | announce => exact F.sendMessage _ _ hsrc F.plainMsg.2.2.2.1
+  | turnUndead => exact F.handleSelfUpdate _ _
+  | gossip => exact PresE.pure _
+  | feed => exact PresE.pure _
+  | broadcast => exact PresE.pure _
 
-theorem FullE.inactiveSender (h : Header) : PresE P (Foca.inactiveSender E h) := by
+theorem FullE.inactiveSender (h : Header) (hh : okH h) : PresE P (Foca.inactiveSender E h) := by
+  have hsrc := (F.replyOk h hh).1
   unfold Foca.inactiveSender
   prese
   all_goals first
     | exact F.handleSelfUpdate _ _
-    | exact F.sendMessage _ _
+    | exact F.sendMessage _ _ hsrc F.plainMsg.2.2.2.2
 
-theorem FullE.replyStage (h : Header) (cres : Option ErrKind) : PresE P (Foca.replyStage E h cres) := by
+theorem FullE.replyStage (h : Header) (cres : Option ErrKind) (hh : okH h) : PresE P (Foca.replyStage E h cres) := by
   unfold Foca.replyStage
   prese
-  exact F.reactToMessage _
+  exact F.reactToMessage _ hh
 
 theorem FullE.handleData (data : Bytes) (hdat : DataOk E okIn okH data) : PresE P (Foca.handleData E data) := by
   unfold Foca.handleData
@@ -391,15 +483,17 @@ theorem FullE.handleData (data : Bytes) (hdat : DataOk E okIn okH data) : PresE 
               obtain ⟨hh, hmem⟩ := hdat h rest hdec
               refine PresE.bind (F.toBaseE.applyUpdate _ _ (F.senderOk s eff h hh hs (by simpa using hsrc))) (fun senderActive => ?_)
               split
-              · exact F.inactiveSender _
+              · exact F.inactiveSender _ hh
               · exact PresE.bind (F.applyMany _ _ (hmem updates tail hparse)) (fun _ =>
-                  PresE.bind (PresE.attempt (F.toBaseE.handleCustomBroadcasts _ _)) (fun _ => F.replyStage _ _))
+                  PresE.bind (PresE.attempt (F.toBaseE.handleCustomBroadcasts _ _)) (fun _ => F.replyStage _ _ hh))
 
 /-- every public call; the two identity-changing calls and what is known about the input are hypotheses -/
 theorem FullE.runOp (op : Op)
     (hchid : ∀ i p, op = .changeIdentity i p → PresE P (Foca.changeIdentity E i p))
     (hreuse : op = .reuseDown → PresE P Foca.reuseDownIdentity)
     (hT : ∀ m inc tok, op = .timer (.s2d m inc tok) → okU ⟨m, inc, .down⟩)
+    (hI : ∀ p tok, op = .timer (.indirect p tok) → okD p)
+    (hAnn : ∀ d, op = .announce d → okD d)
     (hA : ∀ us b, op = .applyMany us b → ∀ u ∈ us, okIn u)
     (hD : ∀ data, op = .data data → DataOk E okIn okH data)
     (hRm : ∀ id, op = .timer (.rm id) → PresE P (modS fun s => { s with ms := removeIfDown s.ms id })) :
@@ -408,10 +502,11 @@ theorem FullE.runOp (op : Op)
   all_goals first
     | exact hchid _ _ rfl
     | exact hreuse rfl
-    | exact F.handleTimer _ (fun m inc tok h => hT m inc tok (by rw [h])) (fun id h => hRm id (by rw [h]))
+    | exact F.handleTimer _ (fun m inc tok h => hT m inc tok (by rw [h])) (fun p tok h => hI p tok (by rw [h]))
+        (fun id h => hRm id (by rw [h]))
     | exact F.applyMany _ _ (hA _ _ rfl)
     | exact F.handleData _ (hD _ rfl)
-    | exact F.sendMessage _ _
+    | exact F.sendMessage _ _ (hAnn _ rfl) F.plainMsg.2.1
     | exact F.toBaseE.gossip
     | exact F.toBaseE.broadcastApi
     | exact F.toBaseE.leaveCluster
